@@ -415,6 +415,14 @@ PrintIntr == {[at |-> "print", n |-> n] : n \in 1..3}
 JoinIntr == {[at |-> "join", n |-> n] : n \in {0, 1, 9, 10, 11, 15, 20, 30, 33}} \cup NoIntr
 AllIntr == NoIntr \cup LineIntr \cup PrintIntr
 
+\* ---- every statement of every menu (without joins / with joins): random long inputs over them run under each engine-based property, so that a
+\* statement shape kept for one property is also exercised under the checks of the others
+UnionMenu == SelectMenu \cup FunctionMenu \cup DistinctMenu \cup LimitMenu \cup AggMenu \cup OrderMenu \cup CalMenu \cup CalAggMenu \cup PrecMenu \cup NoiseMenu
+             \cup RealOrderMenu \cup DistinctCountMenu \cup PercentileZeroMenu
+JoinUnionMenu == JoinMenu \cup LimitJoinMenu
+LinesUnion == {KV(A, IntV(1)), KV(A, IntV(2)), KV(B, IntV(1)), KV(B, IntV(3)), KV(A, IntV(-1)), KV(B, IntV(31)), KV(A, IntV(32)), KV(Null, IntV(2)), KV(A, Null), KV(Null, Null), KV(AB, IntV(10)),
+               KV(B, IntV(0)), Garbage, Empty, Near}
+
 \* which open deviations made this behaviour differ from the Ideal meaning (batch, uninterrupted)
 IdealOut == SemResult(AllLines, jlines)
 Deviates == /\ Dev # {} /\ mode = "batch" /\ Uninterrupted /\ KnownSt(status) /\ KnownSt(IdealOut.st)
